@@ -197,7 +197,7 @@ func TestVerifBridgeRandom(t *testing.T) {
 				case c < 72:
 					r.apply(brOp{Op: "DN", S: s, N: rng.Intn(4)})
 				case c < 82:
-					if pendingRN[s] == 0 { // never re-arm while a collection is in progress (unspecified)
+					if pendingRN[s] == 0 || rng.Intn(3) == 0 { // also re-armed while a collection is in progress
 						n := rng.Intn(4)
 						r.apply(brOp{Op: "RN", S: s, N: n})
 						pendingRN[s] = n
